@@ -635,7 +635,7 @@ func newEmptyResultset(info *SelectPlan, stmt *ast.SelectStmt) *mysql.Resultset 
 			break
 		}
 		r.Fields[i] = &mysql.Field{}
-		if expr.WildCard != nil {
+		if isWildCardField(expr) {
 			r.Fields[i].Name = []byte("*")
 		} else {
 			if expr.AsName.String() != "" {
